@@ -981,6 +981,19 @@ class C01Clauses(Clauses):
         super().__init__(interp)
         self.reported = set()
 
+    def stale(self, u):
+        """The listed dimension-epoch finding applies to this unit only if a decode across a
+        Dimension.define happened in this world AND the unit, or one of its factors, carries an
+        exponent tuple of an older (narrower) width - the trace of a stale duplicate Dimension."""
+        if not self.I.stale_epoch:
+            return False
+        try:
+            width = len(self.I.L.Dimension._fundamental) + 1
+            dims = [u.dimension] + [f.dimension for f in u.factors]
+            return any(len(d.exponents) != width for d in dims)
+        except AttributeError:
+            return False
+
     def scan(self, start, creator):
         L = self.I.L
         known = L.Unit._known
@@ -1017,7 +1030,7 @@ class C01Clauses(Clauses):
                 nf = self.I.nf_of(u)
                 self.I.violation(
                     "C01.stored",
-                    "C01/wrong-dimension/" + ("after-decode-across-dimension-define" if self.I.stale_epoch else
+                    "C01/wrong-dimension/" + ("after-decode-across-dimension-define" if self.stale(u) else
                                               self.I.creators.get(id(u), "op:" + creator)),
                     {"unit": M.nf_str(nf), "stored": list(stored), "factors_product": list(calc),
                      "during": creator},
@@ -1056,7 +1069,7 @@ class C01Clauses(Clauses):
                     self.reported.add(id(u))
                     self.I.violation(
                         "C01.predicted",
-                        "C01/wrong-dimension/" + ("after-decode-across-dimension-define" if self.I.stale_epoch else
+                        "C01/wrong-dimension/" + ("after-decode-across-dimension-define" if self.stale(u) else
                                                   self.I.creators.get(id(u), "op:" + creator)),
                         {"expr_nf": M.nf_str(m), "reported": list(got), "expected": list(want),
                          "during": creator},
